@@ -4,6 +4,7 @@ import Operon.Model.CascadeObs
 import Operon.Model.CascadeTr
 import Operon.Model.CascadePar
 import Operon.Model.CascadeMapk
+import Operon.Model.CascadeHist
 /-! Line-protocol driver for the cascade model (C19). -/
 open Operon Operon.Proto Operon.Cascade
 
@@ -19,6 +20,8 @@ structure DSt where
   nests : List Bool := []            -- per stage: does its processor re-enter run() on the same cascade (search-only op)
   cobs : Option CascObs := none      -- `on_cascade_complete` script
   last : Nat := 0                    -- final output of the last successful `run` that returned (`run prev` feeds it back in)
+  hist : List (HRec Nat) := []       -- `_results_history`
+  isAgent : Bool := false            -- the object is an AgentCascade (only it has add_agent_stage)
 
 def mkStage (i : Nat) (cp pr eh : String) (req : Bool) (amp : Rat) : Stage Nat :=
   { checkpoint :=
@@ -61,9 +64,39 @@ def showEv : Ev Nat → String
   | .proc i s => s!"p{i}:{s}"
   | .eh i => s!"e{i}"
 
+def doRun (st : DSt) (x0 : String) : DSt × String :=
+    let x := if x0 = "prev" then toString st.last else x0      -- `run prev`: the previous output fed back in
+    -- with an `on_cascade_complete` observer the line shows the result the observer was shown (= the one returned), and
+    -- `craise` when the observer raised (then `run` raises: nothing is returned)
+    let cmark : String := match st.cobs with
+      | none => ""
+      | some _ => (match (resultC st.cfg st.obs st.cobs st.stages (natD x)).1 with | .ok _ => " cshown" | .raise => " cshown craise")
+    let render (ro : Result Nat × List Nat) : String :=
+      let r := ro.1
+      let fin := match r.final with | some v => s!"some:{v}" | none => "none"
+      joinSp [showBool r.success, fin, toString r.completed, toString r.total, showRat r.amplification,
+        (match r.blockedAt with | some i => st.names.getD i "?" | none => "none"),
+        showList (r.results.map fun x => s!"{x.idx}{showStatus x.status}:{showRat x.factor}"),
+        showList (r.log.map showEv), showList (ro.2.map toString)] ++ cmark
+    let outer := resultO st.cfg st.obs st.stages (natD x)
+    -- every `nest` processor that ran started one run of the same cascade on signal 3; that run is independent of the
+    -- run it was started from
+    let nestedN := (outer.1.log.filter fun e => match e with | .proc i _ => st.nests.getD i false | _ => false).length
+    let innerR := resultO st.cfg st.obs st.stages 3
+    let oks := (if outer.1.success then 1 else 0) + (if innerR.1.success then nestedN else 0)
+    let returned := match (resultC st.cfg st.obs st.cobs st.stages (natD x)).1 with | .ok _ => true | .raise => false
+    let last' := match outer.1.final with
+      | some v => if returned && outer.1.success then v else st.last
+      | none => st.last
+    ({ st with runs := st.runs + 1 + nestedN, okRuns := st.okRuns + oks, badRuns := st.badRuns + (1 + nestedN - oks), last := last',
+               -- every nested run returns (and is recorded) before the run it was started from
+               hist := pushSeq ((List.replicate nestedN innerR.1).foldl pushSeq st.hist) outer.1 },
+     String.intercalate " | " (render outer :: List.replicate nestedN (render innerR)))
+
 def step (st : DSt) (toks : List String) : DSt × String :=
   match toks with
   | ["cfg", h, m] => ({ cfg := ⟨boolOf h, ratOf m⟩, stages := [], names := [], made := 0, nests := [] }, "ok")
+  | ["acfg", h, m] => ({ cfg := ⟨boolOf h, ratOf m⟩, stages := [], names := [], made := 0, nests := [], isAgent := true }, "ok")   -- an AgentCascade: run() is inherited
   | ["cfg", h, m, _mode] => ({ cfg := ⟨boolOf h, ratOf m⟩, stages := [], names := [], made := 0, nests := [] }, "ok")  -- run() ignores the mode
   | ["observer", k] =>
     let o : Option StageObs :=
@@ -95,32 +128,7 @@ def step (st : DSt) (toks : List String) : DSt × String :=
     match st.names.findIdx? (· == name) with
     | some i => ({ st with stages := st.stages.eraseIdx i, names := st.names.eraseIdx i, nests := st.nests.eraseIdx i }, "1")
     | none => (st, "0")
-  | ["run", x0] =>
-    let x := if x0 = "prev" then toString st.last else x0      -- `run prev`: the previous output fed back in
-    -- with an `on_cascade_complete` observer the line shows the result the observer was shown (= the one returned), and
-    -- `craise` when the observer raised (then `run` raises: nothing is returned)
-    let cmark : String := match st.cobs with
-      | none => ""
-      | some _ => (match (resultC st.cfg st.obs st.cobs st.stages (natD x)).1 with | .ok _ => " cshown" | .raise => " cshown craise")
-    let render (ro : Result Nat × List Nat) : String :=
-      let r := ro.1
-      let fin := match r.final with | some v => s!"some:{v}" | none => "none"
-      joinSp [showBool r.success, fin, toString r.completed, toString r.total, showRat r.amplification,
-        (match r.blockedAt with | some i => st.names.getD i "?" | none => "none"),
-        showList (r.results.map fun x => s!"{x.idx}{showStatus x.status}:{showRat x.factor}"),
-        showList (r.log.map showEv), showList (ro.2.map toString)] ++ cmark
-    let outer := resultO st.cfg st.obs st.stages (natD x)
-    -- every `nest` processor that ran started one run of the same cascade on signal 3; that run is independent of the
-    -- run it was started from
-    let nestedN := (outer.1.log.filter fun e => match e with | .proc i _ => st.nests.getD i false | _ => false).length
-    let innerR := resultO st.cfg st.obs st.stages 3
-    let oks := (if outer.1.success then 1 else 0) + (if innerR.1.success then nestedN else 0)
-    let returned := match (resultC st.cfg st.obs st.cobs st.stages (natD x)).1 with | .ok _ => true | .raise => false
-    let last' := match outer.1.final with
-      | some v => if returned && outer.1.success then v else st.last
-      | none => st.last
-    ({ st with runs := st.runs + 1 + nestedN, okRuns := st.okRuns + oks, badRuns := st.badRuns + (1 + nestedN - oks), last := last' },
-     String.intercalate " | " (render outer :: List.replicate nestedN (render innerR)))
+  | ["run", x0] => doRun st x0
   | ["set", "halt", v] => ({ st with cfg := ⟨boolOf v, st.cfg.maxAmp⟩ }, "ok")      -- public attributes re-assigned between runs
   | ["set", "max", v] => ({ st with cfg := ⟨st.cfg.halt, ratOf v⟩ }, "ok")
   | ["setgate", name, kind] =>
@@ -146,7 +154,28 @@ def step (st : DSt) (toks : List String) : DSt × String :=
         showList (sortS (r.results.map fun q => s!"{st.names.getD q.idx "?"}:{showStatus q.status}:{showRat q.factor}")),
         showList (sortS (r.log.map showEv))]
       ({ st with runs := st.runs + 1, okRuns := st.okRuns + (if r.success then 1 else 0),
-                 badRuns := st.badRuns + (if r.success then 0 else 1) }, line)
+                 badRuns := st.badRuns + (if r.success then 0 else 1), hist := pushPar st.hist r }, line)
+  | ["runs", n, x0] =>
+    -- a batch of `n` calls of run() on the same signal; shown: how many, how many reported success
+    let rec go (k : Nat) (st : DSt) (oks : Nat) : DSt × Nat :=
+      match k with
+      | 0 => (st, oks)
+      | k + 1 => let (st', o) := doRun st x0; go k st' (if o.startsWith "1 " then oks + 1 else oks)
+    let (st', oks) := go (natD n) st 0
+    (st', s!"R {natD n} {oks}")
+  | ["hist", k] =>
+    -- get_history(k): length, the oldest three and the newest three of what is returned
+    let l := getHistory st.hist (intD k)
+    let sh : HRec Nat → String
+      | .seq r => s!"{showBool r.success}:" ++ (match r.final with | some v => s!"some:{v}" | none => "none")
+      | .par r => s!"P{showBool r.success}"
+    (st, joinSp ["H", toString l.length, showList ((l.take 3).map sh), showList ((lastN 3 l).map sh)])
+  | ["agent", cp, kind, amp, name] =>
+    if !st.isAgent then (st, "bad-op") else
+    -- AgentCascade.add_agent_stage: the agent's express returns a payload (ok; sig: a payload that is itself a Signal) or raises
+    let g := mkStage st.made cp (if kind = "ok" || kind = "sig" then "ok" else "raise") "none" true (ratOf amp)
+    ({ st with stages := st.stages ++ [agentStage g.checkpoint g.processor (ratOf amp)],
+               names := st.names ++ [name], made := st.made + 1, nests := st.nests ++ [false] }, "ok")
   | ["stats"] => (st, s!"{st.stages.length} {st.runs} {st.okRuns} {st.badRuns}")
   | _ => (st, "bad-op")
 
